@@ -28,7 +28,7 @@ def run(chk, tier, seed):
         chk.broken.append("harness does not build against /repo: " + binary[-1500:])
         return
     rng = random.Random(seed * 131 + 5)
-    roots = D.roots_for(U, exclude=("k13bulk", "hist"))
+    roots = D.roots_for(U, exclude=("k13bulk", "hist", "arrayvec"))
     byname = {TG.rust_ty(r["ty"]): i for i, r in roots}
     nA = 45 if tier == "quick" else 200
     prims = [i for i, r in roots if r["ty"]["k"] in ("int", "bool", "char", "f32", "f64", "string", "unit")]
